@@ -41,7 +41,7 @@ NODES = {"a": ("float", 10.0, "m"), "b": ("float", 300.0, "cm"), "t": ("float", 
          "n": ("int", 4, None), "x": ("float", 0.5, None), "flag": ("bool", True, None), "off": ("bool", False, None),
          "name": ("str", "Will Smith", None), "id": ("int", 345, None), "w": ("float", 62.3, "kg"),
          "plank": ("int", 250, "cm"), "gap": ("int", 2, "m"), "pulse": ("int", 1, "us"), "window": ("int", 1000, "ns"),
-         "span": ("int", 3, "km")}
+         "span": ("int", 3, "km"), "nul": ("float", None, "m"), "blank": ("str", None, None)}
 # integer nodes compared with each other across units: (left, right) -> relation of left to right
 INT_PAIRS = [("plank", "gap", "gt"), ("gap", "plank", "lt"), ("pulse", "window", "eq"), ("window", "pulse", "eq"),
              ("span", "plank", "gt"), ("plank", "span", "lt"), ("gap", "span", "lt")]
@@ -184,7 +184,7 @@ def logical_case(draw):
         if k == "bool":
             return draw(st.sampled_from([["lit", True], ["lit", False], ["bref", "flag"], ["bref", "off"]]))
         if k == "defined":
-            return ["defined", draw(st.sampled_from(["a", "flag", "nothing", "g.missing"])), draw(st.booleans())]
+            return ["defined", draw(st.sampled_from(["a", "flag", "nothing", "g.missing", "nul", "blank", "off"])), draw(st.booleans())]
         if k == "not":
             inner = draw(st.sampled_from(["bref", "lit", "par"]))
             if inner == "bref":
@@ -242,7 +242,9 @@ def env_text(custom):
         L.append(f"$unit {CUSTOM[0]} = {CUSTOM[1]} {CUSTOM[2]}")
         L.append(f"$unit {CUSTOM0[0]} = {CUSTOM0[1]}")
     for k, (t, val, u) in NODES.items():
-        if t == "bool":
+        if val is None:
+            lit = "none"              # the node exists, its value is empty
+        elif t == "bool":
             lit = "true" if val else "false"
         elif t == "str":
             lit = "'" + val + "'"
@@ -639,5 +641,9 @@ def check(case):
         {"numeric": check_numeric, "logical": check_logical, "template": check_template}[case["kind"]](case, v)
     finally:
         if not R.tables_pristine():
+            leaked = [k for k in R.snapshot()["unit_keys"] if k not in R.PRISTINE["unit_keys"]]
             R.restore_tables()
+            if not v.violations:
+                v.fail("units-left-registered", f"after the case the process-wide unit table still holds {leaked}: "
+                                                f"{case!r}"[:900])
     return v
